@@ -461,11 +461,54 @@ def scen_first_eval(env):
         env.check('first-eval-failure', res['ok'] and not res['done'], info=lambda: res)
 
 
+def scen_three_async(env, order_idx):
+    """three blocks in asynchronous initialisation, distinct symbolic time-outs T0 > T1 > T2 and symbolic
+    durations: which routines complete, the fallback to initdef, and the bound of the wait"""
+    names = ['b0', 'b1', 'b2']
+    T = [env.real(f'T{i}', 0, 50, lo_open=True) for i in range(3)]
+    D = [env.real(f'D{i}', 0, 80, lo_open=True) for i in range(3)]
+    env.assume(And_(T[0] > T[1], T[1] > T[2]))
+    specs = {n: {'restore': 'absent', 'async_': 'set', 'regular': 'absent', 'initdef': 'set', 'poke_sets': False,
+                 'D': D[i], 'T': T[i]} for i, n in enumerate(names)}
+    order = [names[i] for i in list(itertools.permutations(range(3)))[order_idx]]
+    circ = fresh_circuit()
+    calls = []
+    loopref = []
+    clock = lambda: loopref[0].time() if loopref else 0.0
+    blocks = {}
+    for n in order:
+        cls, kw = make_block(n, specs[n], calls, {}, clock)
+        blocks[n] = cls(n, **kw)
+    oc = async_outcomes([(n, specs[n]['D'], specs[n]['T']) for n in names])
+    if oc is None:
+        return
+    res = {}
+
+    async def main():
+        loop = asyncio.get_running_loop()
+        loopref.append(loop)
+        asyncio.create_task(circ.run_forever())
+        await circ.wait_init()
+        res['t'] = loop.time()
+        res['out'] = {n: b.output for n, b in blocks.items()}
+        await circ.shutdown()
+    vloop.run(main())
+    for n in names:
+        exp = (n, 'async') if oc[n] else (n, 'initdef')
+        env.check('verdict', res['out'][n] == exp, info=lambda: (n, order, oc, res['out'], [str(x) for x in T + D]))
+        env.note('async-completed' if oc[n] else 'async-timed-out')
+    # never waited for longer than the largest init_timeout
+    env.check('time-bound', res['t'] <= T[0], info=lambda: (res['t'], [str(x) for x in T + D]))
+
+
 def shards(tier):
     n = BOUNDS[tier]['blocks']
     out = [{'name': 'library blocks', 'scenario': 'scen_library'},
            {'name': 'first evaluation', 'scenario': 'scen_first_eval'},
            {'name': 'one block', 'scenario': 'scen_init', 'params': {'nblocks': 1, 'with_edge': False}}]
+    for oi in ((0, 5) if tier == 'quick' else range(6)):
+        out.append({'name': f'three async blocks order={oi}', 'scenario': 'scen_three_async', 'params': {'order_idx': oi},
+                    'cost': 20})
     def fixes(alpha):
         A = ALPHA[alpha]
         for r in A['restore']:
